@@ -11,6 +11,7 @@ GNext ==
      \/ \E s \in Streams, rf \in BOOLEAN : Answer(s, rf) /\ H([a |-> "Answer", s |-> s, rf |-> rf])
      \/ \E s \in Streams : StreamFailed(s) /\ H([a |-> "StreamFailed", s |-> s])
      \/ \E s \in Streams : LateClosed(s) /\ H([a |-> "LateClosed", s |-> s])
+     \/ \E s \in Streams, k \in {"CONTROLLER_WAIT", "REMAP"} : StreamProgress(s, k) /\ H([a |-> "Progress", s |-> s, k |-> k])
      \/ \E a \in {"A", "B", "P", "none"}, late \in BOOLEAN : SetAttacher(a, late) /\ H([a |-> "SetAttacher", who |-> a, late |-> late])
      \/ \E k \in Conns, c \in Circs, late \in BOOLEAN : ViaConnect(k, c, late) /\ H([a |-> "ViaConnect", k |-> k, c |-> c, late |-> late])
      \/ ConfAck /\ H([a |-> "ConfAck"])
